@@ -199,13 +199,18 @@ class DataCoordinate:
         TypeError
             Raised if the set of optional arguments provided is not supported.
         DimensionNameError
-            Raised if a key-value pair for a required dimension is missing.
+            Raised if a key-value pair for a required dimension is missing, or
+            if a key or a requested dimension is not a dimension of the
+            universe.
         """
         universe = universe or getattr(dimensions, "universe", None) or getattr(mapping, "universe", None)
         if universe is None:
             raise TypeError("universe must be provided, either directly or via dimensions or mapping.")
         if dimensions is not None:
-            dimensions = universe.conform(dimensions)
+            try:
+                dimensions = universe.conform(dimensions)
+            except KeyError as err:
+                raise DimensionNameError(f"Unknown dimension {err} requested for data ID.") from err
         new_mapping: dict[str, DataIdValue] = {}
         if isinstance(mapping, DataCoordinate):
             if dimensions is None:
@@ -230,7 +235,10 @@ class DataCoordinate:
                 universe = defaults.universe
             elif universe is None:
                 raise TypeError("universe must be provided if dimensions is not.")
-            dimensions = DimensionGroup(universe, new_mapping.keys())
+            try:
+                dimensions = DimensionGroup(universe, new_mapping.keys())
+            except KeyError as err:
+                raise DimensionNameError(f"Unknown dimension {err} in data ID ({mapping}).") from err
         if not dimensions:
             return DataCoordinate.make_empty(universe)
         # Some backends cannot handle numpy.int64 type which is a subclass of
